@@ -2,6 +2,9 @@
   Driver.C04 — line protocol for reverse-mode differentiation (records on one tape).
 
     @ tape fp|rat                 new case: one WengertList, element type Fp or Rat   → ok
+    @ tape fp big                 the same for a LARGE case: answered by the array-backed
+                                  evaluation of Driver/Fast.lean only (instruction lines, derivs,
+                                  tryderivs); on every ordinary case both are run and compared
     <instruction line>            (Driver/Prog.lean)      → v=<value> const=<0|1> ## idx=<index>
     cmp <op> <a> <b>              == != < <= > >= partial_cmp of two records
                                                           → c=… (the comparison of the plain values)
@@ -18,6 +21,7 @@
   (`MODEL-SPEC-DISAGREE` is a machinery error: the theorems of Props/C04 say they coincide).
 -/
 import Driver.Prog
+import Driver.Fast
 
 namespace Driver.C04
 open EasyMl EasyMl.Spec Driver
@@ -30,11 +34,15 @@ structure PState (R : Type) where
   recs : List (Rec R) := []
   w : World R := World.empty
   names : Names := []
+  /-- the array-backed evaluation of Driver/Fast.lean, run alongside and compared on every line
+      of an ordinary case (it alone answers the `big` cases) -/
+  fast : Fast.FState R := {}
 
 inductive State where
   | none
   | fp (s : PState Fp)
   | rat (s : PState Rat)
+  | big (s : Fast.FState Fp)
 
 def init : State := .none
 
@@ -56,7 +64,7 @@ def stepInstr (s : PState R) (name : String) (ins : Instr R) (x : Option R) : PS
   | .ok r =>
     let agree := r.number == v && r.isConstant == !dep
     ({ prog := s.prog ++ [ins], envL := envL, vs := s.vs ++ [v], deps := s.deps ++ [dep],
-       recs := s.recs ++ [r], w := w', names := (name, pos) :: s.names },
+       recs := s.recs ++ [r], w := w', names := (name, pos) :: s.names, fast := s.fast },
      flag agree s!"v={Elem.render v} const={if dep then 0 else 1} ## idx={r.index}")
   | .panic k => ({ s with w := w' }, s!"MODEL-SPEC-DISAGREE panic({k})")
 
@@ -89,7 +97,7 @@ def stepCmp (s : PState R) (op : String) (a b : Nat) : String :=
   | some spec, some model => flag (spec == model) spec
   | _, _ => "bad-op"
 
-def stepP (s : PState R) (toks : List String) : PState R × String :=
+def stepList (s : PState R) (toks : List String) : PState R × String :=
   match toks with
   | "cmp" :: op :: a :: b :: _ =>
     match s.names.find a, s.names.find b with
@@ -125,16 +133,34 @@ def stepP (s : PState R) (toks : List String) : PState R × String :=
     | none => (s, if knownOp toks then "bad-ref" else "bad-op")
   | _ => (s, "bad-op")
 
+/-- the list-based model and specification answer; the array-backed evaluation must give the
+    same answer (and, for instructions, have appended as many tape entries) -/
+def stepP (s : PState R) (toks : List String) : PState R × String :=
+  let (s', ans) := stepList s toks
+  match toks with
+  | "cmp" :: _ | "show" :: _ => (s', ans)
+  | "clone" :: name :: a :: _ =>
+    let fast := match s.fast.names.get? a with
+      | some k => { s.fast with names := s.fast.names.insert name k }
+      | none => s.fast
+    ({ s' with fast := fast }, ans)
+  | _ =>
+    let (f', fans) := Fast.step s.fast toks
+    let same := fans == ans && f'.tape.size == (s'.w 0).length && f'.recs.size == s'.recs.length
+    ({ s' with fast := f' }, if same then ans else ans ++ s!" MODEL-SPEC-DISAGREE fast={fans}")
+
 end
 
 def step (s : State) (toks : List String) : State × String :=
   match toks with
   -- `via=new|default` (WengertList::new / Default) is an API variant: same model
+  | "@" :: "tape" :: "fp" :: "big" :: _ => (.big {}, "ok")
   | "@" :: "tape" :: "fp" :: _ => (.fp {}, "ok")
   | "@" :: "tape" :: "rat" :: _ => (.rat {}, "ok")
   | _ =>
     match s with
     | .none => (s, "bad-op")
+    | .big f => let (f', a) := Fast.step f toks; (.big f', a)
     | .fp p => let (p', a) := stepP p toks; (.fp p', a)
     | .rat p => let (p', a) := stepP p toks; (.rat p', a)
 
